@@ -32,6 +32,20 @@ if w.get("op") == "two-drivers":
                 bad.append(f"driver with own variable {own} (class default CLSVAR) prepared environment {sorted(got)}")
     if DC.envars != {"CLSVAR": "default"}:
         bad.append(f"class-level envars were modified by binding jobs: {DC.envars}")
+    dr = D("sh", nprocs=2, memory=1, check_exe=True)
+    first = dr.task.prepare(object()).commands[0][0]
+    dr.nprocs = 6                                   # reconfigured between two uses
+    later = dr.task.prepare(object()).commands[0][0]
+    if not later.endswith("-P 6"):
+        bad.append(f"a driver reconfigured to nprocs=6 still prepares {later!r} (first use prepared {first!r})")
+    import gc
+    for rnd in range(3):                           # short-lived drivers: a new one must never inherit a dead one's settings
+        tmp = D("sh", nprocs=3 + rnd, memory=1, check_exe=True)
+        cmd = tmp.task.prepare(object()).commands[0][0]
+        if not cmd.endswith(f"-P {3 + rnd}"):
+            bad.append(f"a fresh driver with nprocs={3 + rnd} prepared {cmd!r}")
+        del tmp
+        gc.collect()
     d1 = D("sh", nprocs=2, memory=111, envars={"VAR": "one"}, check_exe=True)
     d2 = D("ls", nprocs=8, memory=222, envars={"VAR": "two"}, check_exe=True)
     # a driver that defines a variable the next one does not define, and one without any environment
@@ -119,6 +133,29 @@ elif w.get("op") == "run_local":
         bad.append(f"no readable output record: {type(e).__name__}: {e}; stderr={r.stderr[-200:]}")
     if os.path.isdir(scratch) and os.listdir(scratch):
         bad.append(f"scratch residue: {os.listdir(scratch)}")
+    # the job's environment wins over the runner's own; a command killed by the time limit is a failed command
+    d2 = tempfile.mkdtemp()
+    j2 = JobInput("env", commands=[("sh -c 'echo $JV; touch r1 r2'", "c0")], return_files=("r1", "r2"), envars={"JV": "from-the-job"})
+    j2.dump(os.path.join(d2, "job.inp"))
+    r2 = subprocess.run([exe, os.path.join(d2, "job.inp"), "-o", os.path.join(d2, "out"), "-s", os.path.join(d2, "scr")], capture_output=True, text=True,
+                        timeout=120, env={**os.environ, "JV": "from-the-runner"})
+    try:
+        o2 = JobOutput.load(os.path.join(d2, "out", "job.out"))
+        if o2.stdouts.get("c0", "").strip() != "from-the-job":
+            bad.append(f"the job asked for JV=from-the-job but its command ran with JV={o2.stdouts.get('c0', '').strip()!r} (the runner's own value)")
+    except BaseException as e:
+        bad.append(f"environment scenario: no output record ({type(e).__name__})")
+    d3 = tempfile.mkdtemp()
+    j3 = JobInput("slow", commands=[("sh -c 'touch r1 r2'", "c0"), ("sleep 2", "c1")], return_files=("r1", "r2"), timeout=0.5)
+    j3.dump(os.path.join(d3, "job.inp"))
+    r3 = subprocess.run([exe, os.path.join(d3, "job.inp"), "-o", os.path.join(d3, "out"), "-s", os.path.join(d3, "scr")], capture_output=True, text=True, timeout=120)
+    try:
+        o3 = JobOutput.load(os.path.join(d3, "out", "job.out"))
+        if (r3.returncode == 0) != (o3.exitcode == 0):
+            bad.append(f"a job with a time limit: the runner exited {r3.returncode} but recorded exit code {o3.exitcode} (a killed command stored as success)")
+    except BaseException as e:
+        if r3.returncode == 0:
+            bad.append(f"time-limit scenario: exit 0 without an output record ({type(e).__name__})")
 else:
     print("unknown op")
     sys.exit(1)
